@@ -37,7 +37,7 @@ fn c01_spec() -> CheckSpec {
         ],
         real_components: vec!["a2lfile: tokenizer, loader (decoding, BOM), parser, generated parsers/writers, writer, ifdata, a2ml, ItemList", "std Read::read_to_end retry/growth loop"],
         stubbed_components: vec!["file system (in-memory VFS behind cfg(a2lfile_verif))", "OS randomness feeding std RandomState (getrandom interposer)"],
-        expected_probes: vec!["hash-order-cross-check", "api-built-tagged-items-with-equal-uid-and-line", "built-in-a2ml-specification", "position-restricted-siblings-out-of-order", "file-with-more-than-one-a2ml-block", "torn-save-then-load", "saves-over-the-same-file", "edit:sort()", "edit:cleanup()", "edit:ifdata_cleanup()", "edit:sort_new_items()", "declared-version-differs-from-content", "a2ml-block-without-usable-definition"],
+        expected_probes: vec!["hash-order-cross-check", "api-built-tagged-items-with-equal-uid-and-line", "built-in-a2ml-specification", "position-restricted-siblings-out-of-order", "file-with-more-than-one-a2ml-block", "torn-save-then-load", "saves-over-the-same-file", "edit:sort()", "edit:cleanup()", "edit:ifdata_cleanup()", "edit:sort_new_items()", "declared-version-differs-from-content", "a2ml-block-without-usable-definition", "api-built-a2ml-block"],
         plans: vec![
             ScenarioPlan { scenario: Box::new(c01::C01Cycles { faults: false }), quick_runs: 12_000, thorough_runs: 1_000_000 },
             ScenarioPlan { scenario: Box::new(c01::C01Cycles { faults: true }), quick_runs: 6_000, thorough_runs: 400_000 },
